@@ -3,17 +3,21 @@
 import json, os, re, shutil, sys
 pid = sys.argv[1]
 out = f"/tmp/wt/{pid}/out"
+offset = 0
+if pid.startswith("R2"):
+    # second round of seeded changes: stored behind the first three of the property
+    pid, offset = pid[2:], 3
 conf = open(f"{out}/confirm.txt").read()
 for m in re.finditer(r"mutant(\d+) demo_clean=(\d+) demo_mutant=(\d+) baseline_rc=(\d+)", conf):
     i, clean, mut, base = m.group(1), int(m.group(2)), int(m.group(3)), int(m.group(4))
-    d = f"/verif/seeded/{pid}-{i}"
+    d = f"/verif/seeded/{pid}-{int(i) + offset}"
     flaky_only = False
     if base != 0 and os.path.exists(f"{out}/baseline{i}.txt"):
         missing = re.findall(r"NOT PASSING: (\S+)", open(f"{out}/baseline{i}.txt").read())
         flaky_only = bool(missing) and set(missing) <= {"tests.test_grammar_coverage.GrammarCoverageTest::test_io_smtp_inputs"}
     ok = clean == 0 and mut != 0 and (base == 0 or flaky_only)
     if not ok:
-        print(f"{pid}-{i}: NOT confirmed ({m.group(0)})")
+        print(f"{pid}-{int(i) + offset}: NOT confirmed ({m.group(0)})")
         continue
     os.makedirs(d, exist_ok=True)
     shutil.copy(f"{out}/mutant{i}.diff", f"{d}/patch.diff")
@@ -33,4 +37,4 @@ for m in re.finditer(r"mutant(\d+) demo_clean=(\d+) demo_mutant=(\d+) baseline_r
     })
     meta.setdefault("check_results", {})
     json.dump(meta, open(meta_p, "w"), indent=1)
-    print(f"{pid}-{i}: stored")
+    print(f"{pid}-{int(i) + offset}: stored")
